@@ -91,7 +91,7 @@ def main():
         rec = {"file": f, "line": ln + 1, "from": orig.strip(), "to": lines[ln].strip()}
         try:
             open(os.path.join(REPO, f), "w").write("\n".join(lines))
-            rc, out = sh("cargo test --offline 2>&1 | grep -E '^test result|error(\\[|:)|FAILED' | head -5", timeout=900)
+            rc, out = sh("timeout -k 5 180 cargo test --offline 2>&1 | grep -E '^test result|error(\\[|:)|FAILED' | head -5", timeout=900)
             if "error" in out or "test result" not in out:
                 rec["status"] = "does-not-compile"
             elif "FAILED" in out or "failed; " in out and not re.search(r" 0 failed", out):
